@@ -279,7 +279,7 @@ type caseDesc struct {
 
 // runSplit runs the real splitter for spec over data through the given
 // fragmentation and checks everything that concerns a single run.
-func runSplit(spec string, sm specModel, data []byte, fd fragDesc) (accepted bool, lens []int, v *eng.Violation) {
+func runSplit(st *stats, spec string, sm specModel, data []byte, fd fragDesc) (accepted bool, lens []int, v *eng.Violation) {
 	fr := newFragReader(data, fd)
 	var s chunk.Splitter
 	var err error
@@ -295,6 +295,9 @@ func runSplit(spec string, sm specModel, data []byte, fd fragDesc) (accepted boo
 	for calls := 0; ; calls++ {
 		if calls > len(data)+10 {
 			return true, lens, eng.V("nextbytes-bound-exceeded", "NextBytes", fmt.Sprintf("spec %q: more than len(input)+10=%d NextBytes calls without io.EOF", spec, len(data)+10), feat...)
+		}
+		if calls&0xffff == 0xffff {
+			st.progress.Add(1) // watchdog: completed NextBytes calls count as progress
 		}
 		var b []byte
 		if pv := eng.Guard("NextBytes", func() { b, err = s.NextBytes() }); pv != nil {
@@ -376,7 +379,7 @@ var whole = fragDesc{Kind: "whole"}
 // checkInput runs the canonical (whole-reader) split and every listed
 // fragmentation, and reports all violations (each with its replay record).
 func checkInput(r *eng.Run, st *stats, spec string, sm specModel, in inputDesc, data []byte, frags []fragDesc) (accepted bool, canon []int) {
-	accepted, canon, v := runSplit(spec, sm, data, whole)
+	accepted, canon, v := runSplit(st, spec, sm, data, whole)
 	st.progress.Add(1)
 	if v != nil {
 		v.Replay = caseDesc{spec, in, whole}
@@ -388,7 +391,7 @@ func checkInput(r *eng.Run, st *stats, spec string, sm specModel, in inputDesc, 
 		return false, nil
 	}
 	for _, fd := range frags {
-		acc2, lens, v := runSplit(spec, sm, data, fd)
+		acc2, lens, v := runSplit(st, spec, sm, data, fd)
 		r.Eval(1)
 		st.progress.Add(1)
 		if v != nil {
@@ -643,7 +646,7 @@ func buildItems(r *eng.Run) []item {
 		found := map[string]bool{}
 		for b := uint64(0); b < 1<<16 && len(found) < 3; b++ {
 			in := inputDesc{Gen: "bits", Len: lc, Bits: b}
-			_, lens, _ := runSplit(spec, sm, in.data(), whole)
+			_, lens, _ := runSplit(newStats(), spec, sm, in.data(), whole)
 			if len(lens) < 2 {
 				continue
 			}
